@@ -85,6 +85,16 @@ fn try_null_datalink(packet: &[u8]) -> Option<(IpAddr, IpAddr, u16, u16)> {
     // AF_INET = 2, AF_INET6 = 30 (on most systems)
     let family = u32::from_ne_bytes([packet[0], packet[1], packet[2], packet[3]]);
 
+    // The packet parser accepts the `1e 00` loopback header in front of IPv4 as well as IPv6
+    // and decides by the IP version nibble; do the same here so that both read the same endpoints
+    if packet[0] == 0x1e && packet[1] == 0x00 {
+        return match packet.get(4).map(|b| b >> 4) {
+            Some(4) => extract_ipv4_info(&packet[4..]),
+            Some(6) => extract_ipv6_info(&packet[4..]),
+            _ => None,
+        };
+    }
+
     match family {
         2 => extract_ipv4_info(&packet[4..]),       // AF_INET
         30 | 28 => extract_ipv6_info(&packet[4..]), // AF_INET6 (varies by OS)
